@@ -88,17 +88,14 @@ Proof.
             | None => unk_value (cCustoms c) (unk m) s None end) as [vv|]; [|discriminate].
   destruct (match vv with Some _ => false | None => match rf with None => true | Some _ => is_custom (cCustoms c) s end end);
     [discriminate|].
-  destruct (is_slice (cCustoms c) field).
-  - destruct vv as [[x|l]|].
-    + discriminate.
-    + destruct (render_elems fn m field l) as [js|] eqn:Ej; [|discriminate].
-      intros H; inversion H; subst. split; [reflexivity|]. cbn [jval_oku]. eapply render_elems_ok. exact Ej.
+  destruct vv as [[x|l]|].
+  - destruct (apply_renderer fn m field (Some x)) as [o|]; [|discriminate].
+    destruct (jval_of o) as [j|] eqn:Ej; intros H; inversion H; subst.
+    split; [reflexivity|eapply jval_of_ok; exact Ej].
+  - destruct (render_elems fn m field l) as [js|] eqn:Ej; [|discriminate].
+    intros H; inversion H; subst. split; [reflexivity|]. cbn [jval_oku]. eapply render_elems_ok. exact Ej.
+  - destruct (is_slice (cCustoms c) field).
     + intros H; inversion H; subst. split; [reflexivity|exact I].
-  - destruct vv as [[x|l]|].
-    + destruct (apply_renderer fn m field (Some x)) as [o|]; [|discriminate].
-      destruct (jval_of o) as [j|] eqn:Ej; intros H; inversion H; subst.
-      split; [reflexivity|eapply jval_of_ok; exact Ej].
-    + discriminate.
     + destruct (apply_renderer fn m field None) as [o|]; [|discriminate].
       destruct (jval_of o) as [j|] eqn:Ej; intros H; inversion H; subst.
       split; [reflexivity|eapply jval_of_ok; exact Ej].
@@ -162,13 +159,11 @@ Theorem struct_field_written c m s j g col k :
   format_field c m s <> Some None.
 Proof.
   intros Hs. unfold format_field. rewrite Hs.
-  destruct (is_slice (cCustoms c) (remap (cCustoms c) s)).
-  - destruct (struct_value m g col k) as [x|l]; [discriminate|].
-    destruct (render_elems _ m _ l); discriminate.
-  - destruct (struct_value m g col k) as [x|l]; [|discriminate].
-    destruct (apply_renderer _ m _ (Some x)) as [o|] eqn:Ea; [|discriminate].
+  destruct (struct_value m g col k) as [x|l].
+  - destruct (apply_renderer _ m _ (Some x)) as [o|] eqn:Ea; [|discriminate].
     pose proof (apply_renderer_some _ _ _ _ _ Ea) as Hne.
     destruct o; [congruence| |]; discriminate.
+  - destruct (render_elems _ m _ l); discriminate.
 Qed.
 
 (* a declared custom field (that is not the Go name of a struct field) the flow does not carry is not written *)
@@ -189,12 +184,11 @@ Theorem custom_present_written c m s v :
   format_field c m s <> Some None.
 Proof.
   intros Hg Hu. unfold format_field. rewrite Hg, Hu.
-  destruct (is_slice (cCustoms c) (remap (cCustoms c) s)).
-  - destruct v as [x|l]; [discriminate|]. destruct (render_elems _ m _ l); discriminate.
-  - destruct v as [x|l]; [|discriminate].
-    destruct (apply_renderer _ m _ (Some x)) as [o|] eqn:Ea; [|discriminate].
+  destruct v as [x|l].
+  - destruct (apply_renderer _ m _ (Some x)) as [o|] eqn:Ea; [|discriminate].
     pose proof (apply_renderer_some _ _ _ _ _ Ea) as Hne.
     destruct o; [congruence| |]; discriminate.
+  - destruct (render_elems _ m _ l); discriminate.
 Qed.
 
 (* what "carried" means: an unknown field whose number is the declared one is in the message *)
